@@ -110,7 +110,7 @@ CHECKS = [
      "text": "TLC enumerates ALL node vectors of <= 2 (3 thorough) nodes with arbitrary keys and classifies them with a terminating traversal (ok / unnamed "
              "cycle / dangling / empty); fingerprint, JSON rendering and freeze are run on each in separate child-process commands (a stack overflow is an "
              "observation) and validated by TLC; frozen schemas are probed (Debug, serialize, decode short inputs). Plus random vectors with odd names and "
-             "logical types, deep chains, mutated schema texts, every JSON value shape at every attribute, deep nesting, megabyte names.",
+             "logical types, deep chains, mutated schema texts, every JSON value shape at every attribute, deep nesting, megabyte names, diamond-shaped record references (45 records: the cycle check must be linear - a genuine defect found and repaired), records repeating a field name, ignored attributes with hostile values.",
      "note": TLC_NOTE + " 'Never a crash' is observed through process exit status (8 MiB stack).",
      "technique": "exhaustive node-vector enumeration by TLC with a TLA+ classification, replayed in child processes; answers trace-validated by TLC"},
     {"property_id": "C11", "level": "model_checking", "design_ref": "DESIGN.md §6 C11",
@@ -143,7 +143,7 @@ CHECKS = [
              "random walks of 16 steps. The safe-Rust interpreter vl executes every history on the real API natively (par_use on real threads vs the same scripts "
              "sequentially; two runs compared) and the highest-scoring + a random sample under Miri (Stacked Borrows; thorough: also Tree Borrows), the oracle for "
              "undefined behaviour: error paths of freeze at three key positions, moves through Box / Vec, Arc handles dropped before / after readers, readers moved "
-             "mid-file and dropped in any state, borrowed and owned values used after their schema and reader are gone. Native runs are trace-validated against Lifecycle.tla (Trace_Lifecycle: every operation enabled, freeze as predicted, Arc strong counts = owners in the model).",
+             "mid-file and dropped in any state, borrowed and owned values used after their schema and reader are gone. Native runs are trace-validated against Lifecycle.tla (Trace_Lifecycle: every operation enabled, freeze as predicted, Arc strong counts = owners in the model). Huge keys on unreachable nodes are swept (freeze must refuse each), and the order in which a reader lets go of its state and of its schema is observed by an input that watches the schema (DropReader1 / DropReader2).",
      "note": TLC_NOTE + " TLC cannot observe undefined behaviour: Miri is the oracle, on null / deflate / snappy codecs only, one thread schedule per seed; the sample "
              "of histories run under Miri is bounded by its speed (about 5 s per history).",
      "technique": "TLA+ ownership model checked by TLC, which also generates API histories; histories replayed by a safe-Rust interpreter natively (threads vs sequential) and under Miri"},
